@@ -11,8 +11,8 @@ from drivers import _httpgate_util as U
 
 META = {
     "engine": "httpgate",
-    "text": "TLC enumerates every configuration vector (12 switches, 9216 configurations; quick tier: the 3072 with "
-            "authentication configured and no storage-less external config, 8 route kinds) x every applicable route kind "
+    "text": "TLC enumerates every configuration vector (12 switches, 9216 configurations; quick tier: the 1152-configuration "
+            "slice auth on / maxResp=maxExt / proof=intro, 8 route kinds) x every applicable route kind "
             "with the header set the capability table demands; the driver builds one real app per configuration with "
             "make_wsgi_app (concrete limits/TTL/echo names drawn per configuration), issues a real request of every "
             "route kind (success, RPC error, 400, 401, 404 method, 404 page, 405, 413, 415, stream init/continuation, "
@@ -163,7 +163,7 @@ def run(ctx: Ctx) -> None:
     ctx.assume("concrete limits are drawn per configuration (including 0, 2^31, 2^53-1); TTLs are integral seconds",
                "VGI-Auth-Reason, VGI-Auth-Proxy-Required, VGI-Session, VGI-Session-Close, VGI-Echo-* are per-response "
                "headers, every other VGI-* response header counts as a capability header",
-               "quick tier: Slice=quick (auth always configured, ext in {none, storage}) and 8 of the 22 route kinds" if ctx.quick
+               "quick tier: Slice=quick (auth configured, maxResp=maxExt, proof=intro: 1152 configurations) and 8 of the 22 route kinds" if ctx.quick
                else "all 9216 configurations x all 22 route kinds")
 
     servers = {"none": U.build_server()[0],
